@@ -11,7 +11,7 @@ from .core import log
 
 
 # ---------------------------------------------------------------- random records
-def random_record(rng, n=None, nfeat=None, alphabet="ACGT"):
+def random_record(rng, n=None, nfeat=None, alphabet="ACGT", order_ops=False):
     loader.load()
     from Bio.Seq import Seq
     from Bio.SeqFeature import CompoundLocation, FeatureLocation, SeqFeature
@@ -40,7 +40,8 @@ def random_record(rng, n=None, nfeat=None, alphabet="ACGT"):
             else:
                 parts.append(FeatureLocation(a, n, strand=st))
                 parts.append(FeatureLocation(0, a + L - n, strand=st))
-        loc = parts[0] if len(parts) == 1 else CompoundLocation(parts)
+        # (a quarter of the compound locations are GenBank `order(...)` rather than `join(...)`)
+        loc = parts[0] if len(parts) == 1 else CompoundLocation(parts, operator="order" if (order_ops and rng.random() < 0.25) else "join")
         ftype = rng.choice(["CDS", "misc_feature", "source", "promoter"])
         feats.append(SeqFeature(loc, type=ftype, id="f%d" % len(feats),
                                 qualifiers={"label": ["L%d" % rng.randrange(99)], "note": ["n"] if rng.random() < 0.7 else "bare string"}))
